@@ -1,3 +1,4 @@
+pub mod conc;
 pub mod crash;
 pub mod seq;
 
@@ -5,15 +6,25 @@ use crate::runner::Engine;
 
 static SEQ: seq::SeqEngine = seq::SeqEngine;
 static CRASH: crash::CrashEngine = crash::CrashEngine;
+static CONC: conc::ConcEngine = conc::ConcEngine;
 
 pub fn engine_by_name(name: &str) -> &'static dyn Engine {
     match name {
         "seq" => &SEQ,
         "crash" => &CRASH,
+        "conc" => &CONC,
         other => {
             eprintln!("unknown engine {other}");
             std::process::exit(2);
         }
+    }
+}
+
+/// "engine:profile" or a bare property id (its primary engine).
+pub fn parse_label(label: &str) -> (&'static dyn Engine, String) {
+    match label.split_once(':') {
+        Some((e, p)) => (engine_by_name(e), p.to_string()),
+        None => (engine_for(label), label.to_string()),
     }
 }
 
@@ -22,6 +33,7 @@ pub fn engine_for(property: &str) -> &'static dyn Engine {
     match property {
         "C01" | "C10" | "C11" | "C12" | "C13" | "C14" | "C16" | "C05" => &SEQ,
         "C02" | "C03" | "C04" => &CRASH,
+        "C07" | "C08" | "C18" => &CONC,
         other => {
             eprintln!("no engine for property {other}");
             std::process::exit(2);
@@ -54,11 +66,13 @@ pub fn plan(property: &str) -> Option<Plan> {
         "C01" => (vec![stage("seq", "C01", 24_000, 400_000)], "exploration"),
         "C05" => (vec![stage("seq", "C05", 20_000, 300_000)], "exploration"),
         "C10" => (vec![stage("seq", "C10", 20_000, 300_000)], "exploration"),
-        "C11" => (vec![stage("seq", "C11", 24_000, 300_000)], "exploration"),
+        "C07" => (vec![stage("conc", "C07", 60_000, 1_500_000)], "exploration"),
+        "C08" => (vec![stage("conc", "C08", 40_000, 1_000_000)], "exploration"),
+        "C11" => (vec![stage("seq", "C11", 24_000, 300_000), stage("conc", "C11", 30_000, 600_000)], "exploration"),
         "C12" => (vec![stage("seq", "C12", 24_000, 300_000)], "exploration"),
-        "C13" => (vec![stage("seq", "C13", 24_000, 300_000)], "exploration"),
-        "C14" => (vec![stage("seq", "C14", 24_000, 300_000)], "exploration"),
-        "C16" => (vec![stage("seq", "C16", 12_000, 200_000)], "exploration"),
+        "C13" => (vec![stage("seq", "C13", 24_000, 300_000), stage("conc", "C13", 40_000, 800_000)], "exploration"),
+        "C14" => (vec![stage("seq", "C14", 24_000, 300_000), stage("conc", "C14", 40_000, 800_000)], "exploration"),
+        "C16" => (vec![stage("seq", "C16", 12_000, 200_000), stage("conc", "C16", 30_000, 600_000)], "exploration"),
         "C02" => (vec![stage("crash", "C02", 6_000, 60_000)], "fault_enumeration"),
         "C03" => (vec![stage("crash", "C03", 6_000, 60_000)], "fault_enumeration"),
         "C04" => (vec![stage("crash", "C04", 2_000, 30_000)], "fault_enumeration"),
